@@ -118,6 +118,20 @@ def handleCodec (cmd : String) (args : List SExp) : String :=
       | .ok d => "ok " ++ toHexW d
       | .error e => "e:" ++ e.name
     | none => "bad-args"
+  -- the reference encoder: head, token groups ((l BYTE) | (r OFF LEN)), padding -> "valid=0|1 IMAGE"
+  | "lzss-enc", [p, .list groups, pd] =>
+    let tok? : SExp → Option Lzss.Tok := fun
+      | .list [.atom "l", b] => do let b ← b.nat?; pure (.lit (UInt8.ofNat b))
+      | .list [.atom "r", o, l] => do pure (.ref (← o.nat?) (← l.nat?))
+      | _ => none
+    let group? : SExp → Option (List Lzss.Tok) := fun
+      | .list ts => ts.mapM tok?
+      | _ => none
+    match p.bytes?, groups.mapM group?, pd.nat? with
+    | some head, some gs, some pad =>
+      "valid=" ++ (if Lzss.validB head gs pad then "1" else "0") ++ " " ++ toHexW (Lzss.encodeFile head gs pad) ++
+        " " ++ toHexW (head ++ Lzss.expand gs [])
+    | _, _, _ => "bad-args"
   | _, _ => "bad-args"
 
 end Pyctr
